@@ -101,7 +101,32 @@ func ruleEOFNotAnError(c *Ctx, rule string) {
 				if !call.Call.IsInvoke() && len(call.Call.Args) >= 2 {
 					buf = call.Call.Args[1]
 				}
-				if ms, ok := buf.(*ssa.MakeSlice); ok {
+				// the buffer may be made by the caller and handed to a helper: decide at the helper's call sites
+				if prm, isParam := buf.(*ssa.Parameter); isParam {
+					idx := -1
+					for i, p := range fn.Params {
+						if p == prm {
+							idx = i
+						}
+					}
+					ncalls, okAll := 0, idx >= 0
+					for _, caller := range c.SrcFuncs("files") {
+						for _, cl := range callsTo(caller, fn) {
+							ncalls++
+							ms, ok := cl.Call.Args[idx].(*ssa.MakeSlice)
+							if !ok || !lengthPositiveAt(caller, exprStr(ms.Len), cl) {
+								okAll = false
+							}
+						}
+					}
+					if okAll && ncalls > 0 {
+						positive = true
+					}
+				}
+				if ms, ok := buf.(*ssa.MakeSlice); ok && lengthPositiveAt(fn, exprStr(ms.Len), call) {
+					positive = true
+				}
+				if ms, ok := buf.(*ssa.MakeSlice); ok && false {
 					lenStr := exprStr(ms.Len)
 					for _, b := range fn.Blocks {
 						iff, ok := b.Instrs[len(b.Instrs)-1].(*ssa.If)
@@ -136,7 +161,7 @@ func ruleEOFNotAnError(c *Ctx, rule string) {
 			}
 		})
 	}
-	r.Floor(rule, "read calls in package files whose error can reach a panic", n, 2)
+	r.Floor(rule, "read calls in package files whose error can reach a panic", n, 1)
 }
 
 // ruleSizeAgreement implements C07.R2.
@@ -357,14 +382,10 @@ func ruleModeTable(c *Ctx, rule string) {
 		ob2.Und("engine.RunFiles not found")
 	} else {
 		ob2.Pos = c.pos(rf.Pos())
+		okPhi := false
 		got := ""
 		for _, call := range callsTo(rf, search) {
 			got = exprStr(call.Call.Args[3])
-		}
-		ob2.Check(got == "φactualMode" || strings.Contains(got, "actualMode"), "mode argument is "+got, "RunFiles passes "+got+" to search")
-		// the phi merges `mode` and the constant NOTHING under processFilenames
-		okPhi := false
-		for _, call := range callsTo(rf, search) {
 			if p, ok := call.Call.Args[3].(*ssa.Phi); ok {
 				hasConst, hasParam := false, false
 				for _, e := range p.Edges {
@@ -375,12 +396,25 @@ func ruleModeTable(c *Ctx, rule string) {
 						hasParam = true
 					}
 				}
-				okPhi = hasConst && hasParam
+				// the constant arrives through a branch on a bool parameter (processFilenames)
+				underFlag := false
+				for i, e := range p.Edges {
+					if _, isConst := e.(*ssa.Const); isConst {
+						pred := p.Block().Preds[i]
+						for _, l := range condsOf(NewPostDom(rf).ControlDeps(), pred) {
+							if prm, ok := l.Cond.(*ssa.Parameter); ok && l.Pol {
+								if b, ok := prm.Type().Underlying().(*types.Basic); ok && b.Kind() == types.Bool {
+									underFlag = true
+								}
+							}
+						}
+					}
+				}
+				okPhi = hasConst && hasParam && underFlag
 			}
 		}
-		if ob2.Verdict == Discharged && !okPhi {
-			ob2.Bad("the mode passed to search is not `NOTHING when processFilenames, else the caller's mode`")
-		}
+		ob2.Check(okPhi, "search receives `NOTHING when processFilenames, else the caller's mode` ("+got+")", "the mode passed to search ("+got+") is not `NOTHING when processFilenames, else the caller's mode`")
+		ob2.Nontrivial = true
 	}
 }
 
@@ -388,9 +422,36 @@ func ruleModeTable(c *Ctx, rule string) {
 func ruleWhoWritesFiles(c *Ctx, rule string) {
 	r := c.R
 	mutators := map[string]bool{"OpenFile": true, "Create": true, "WriteFile": true, "Rename": true, "Remove": true, "RemoveAll": true, "Truncate": true, "Mkdir": true, "MkdirAll": true, "Chmod": true, "Symlink": true, "Link": true}
-	allowed := map[string]string{
-		"files.WriterFromFile/OpenFile": "the one place that opens a file for writing",
-		"engine.RunFiles/Rename":        "renaming files when processing file names",
+	writerT := c.NamedType("files", "Writer")
+	rf0 := c.Fn("engine", "RunFiles")
+	// underFilenamesFlag: the instruction, or every call chain from RunFiles that reaches its function, is control-dependent on the
+	// bool parameter of RunFiles (processFilenames)
+	var underFlag func(in ssa.Instruction, depth int) bool
+	underFlag = func(in ssa.Instruction, depth int) bool {
+		fn := in.Parent()
+		if fn == rf0 {
+			for _, l := range condsOf(NewPostDom(fn).ControlDeps(), in.Block()) {
+				if prm, ok := l.Cond.(*ssa.Parameter); ok && l.Pol {
+					if b, ok := prm.Type().Underlying().(*types.Basic); ok && b.Kind() == types.Bool {
+						return true
+					}
+				}
+			}
+			return false
+		}
+		if depth > 3 {
+			return false
+		}
+		n := 0
+		for _, caller := range c.callersIn("engine", fn) {
+			for _, cl := range callsTo(caller, fn) {
+				n++
+				if !underFlag(cl, depth+1) {
+					return false
+				}
+			}
+		}
+		return n > 0
 	}
 	seen := map[string]bool{}
 	for fn := range c.allFns {
@@ -411,10 +472,15 @@ func ruleWhoWritesFiles(c *Ctx, rule string) {
 			}
 			seen[key] = true
 			ob := r.Ob(rule, "library call os."+sc.Name()+" in "+fnName(fn), c.pos(in.Pos()))
-			if why, ok := allowed[key]; ok {
-				ob.OKnt("allow-listed: " + why)
-			} else {
-				ob.Bad("the library modifies the file system here; only files.WriterFromFile (open for writing) and engine.RunFiles (rename under -filenames) may")
+			res := fn.Signature.Results()
+			isWriterCtor := res.Len() == 1 && writerT != nil && types.Identical(deref(res.At(0).Type()), writerT) && fn.Pkg.Pkg.Path() == modRoot+"/libvore/files"
+			switch {
+			case sc.Name() == "OpenFile" && isWriterCtor:
+				ob.OKnt("the writer constructor of package files: the one place that opens a file for writing")
+			case sc.Name() == "Rename" && rf0 != nil && underFlag(in, 0):
+				ob.OKnt("renaming under -filenames: control-dependent on RunFiles' processFilenames parameter")
+			default:
+				ob.Bad("the library modifies the file system here; only the writer constructor of package files (open for writing) and the rename under RunFiles' -filenames flag may")
 			}
 		})
 	}
@@ -462,24 +528,6 @@ func ruleWhoWritesFiles(c *Ctx, rule string) {
 		sort.Strings(bad)
 		ob.Check(len(bad) == 0, "the call graph from searchFind contains no writer construction, Writer method or os mutator", "find commands can reach "+strings.Join(bad, ", "))
 		ob.Nontrivial = true
-	}
-	// the rename in RunFiles is under processFilenames
-	rf := c.Fn("engine", "RunFiles")
-	if rf != nil {
-		cds := NewPostDom(rf).ControlDeps()
-		instrsOf(rf, func(in ssa.Instruction) {
-			if isCallTo(in, "os", "Rename") {
-				ob := r.Ob(rule, "engine.RunFiles renames only when processing file names", c.pos(in.Pos()))
-				okc := false
-				for _, l := range condsOf(cds, in.Block()) {
-					if exprStr(l.Cond) == "processFilenames" && l.Pol {
-						okc = true
-					}
-				}
-				ob.Check(okc, "control-dependent on processFilenames", "os.Rename is not control-dependent on processFilenames")
-				ob.Nontrivial = true
-			}
-		})
 	}
 }
 
@@ -792,4 +840,31 @@ func ruleFileListGuards(c *Ctx, rule string) {
 	}
 	ob.Check(nrec > 0 && bad == 0, fmt.Sprintf("%d recursive calls, all on path.shrink()", nrec), fmt.Sprintf("%d of %d recursive calls are not on path.shrink(): the recursion depth is not bounded by the number of segments", bad, nrec))
 	ob.Nontrivial = true
+}
+
+// lengthPositiveAt: a branch that dominates `at` in fn establishes that the value rendered as lenStr is at least 1 (the non-positive
+// case returned early).
+func lengthPositiveAt(fn *ssa.Function, lenStr string, at ssa.Instruction) bool {
+	for _, b := range fn.Blocks {
+		iff, ok := b.Instrs[len(b.Instrs)-1].(*ssa.If)
+		if !ok {
+			continue
+		}
+		bo, ok := iff.Cond.(*ssa.BinOp)
+		if !ok || exprStr(bo.X) != lenStr {
+			continue
+		}
+		k, isC := constInt(bo.Y)
+		var okSucc *ssa.BasicBlock
+		switch {
+		case isC && bo.Op == token.LEQ && k >= 0, isC && bo.Op == token.LSS && k >= 1, isC && bo.Op == token.EQL && k == 0:
+			okSucc = b.Succs[1]
+		case isC && bo.Op == token.GTR && k >= 0, isC && bo.Op == token.GEQ && k >= 1, isC && bo.Op == token.NEQ && k == 0:
+			okSucc = b.Succs[0]
+		}
+		if okSucc != nil && (okSucc == at.Block() || okSucc.Dominates(at.Block())) {
+			return true
+		}
+	}
+	return false
 }
